@@ -12,7 +12,12 @@ SPEC = {
             "fnv1a32/64 (both overloads), and chaining f(suffix, seed=f(prefix)) == expected f(whole) for crc32/fnv1a32/fnv1a64. "
             "Inputs: every length 0..300 x fills {00, FF, counter, PRNG} with EVERY split point 0..len; thorough adds lengths "
             "301..1100 x 4 fills; 200 (quick) / 5000 (thorough) random inputs of length 64k+d, d in -9..+1, up to exactly 1 MiB, "
-            "with <=8 sampled split points each (0, len, a block boundary, len-1, random). "
+            "with <=8 sampled split points each (0, len, a block boundary, len-1, random). Chains with an EMPTY piece: the piece is "
+            "passed as (nullptr,0), (valid pointer,0) or empty std::string, at the start / middle / end of prefix+suffix, started from "
+            "the default value and from a non-default running value (expected: zlib.crc32(x, v) / recurrence started at v), at every "
+            "split of one fill per length and at 3 splits of the others. Concurrency stages: 8 threads per process (4 asan + 2 tsan "
+            "processes), barrier start, each thread hashes its own inputs (lengths 0..130, 183..193, 247..257, 311..321, random to 64 KiB) "
+            "for 150/1000 (asan) or 10/60 (tsan) rounds with all six functions and compares with the oracle's values. "
             "distinct_nontrivial = distinct (len mod 64, block-count bucket) digest classes + input kind/fill/alignment + "
             "random-length offset classes + chaining (mode, cut position, size) classes.",
     "level_text": "Every message length 0..300 (all padding cases of the 64-byte block functions: 55/56/63/64/119/120...) is run "
@@ -23,6 +28,11 @@ SPEC = {
     "stages": [
         {"name": "c10", "variant": "asan", "shards": (_oracle.NSHARDS, _oracle.NSHARDS), "args_fn": _oracle.make_cases,
          "timeout": (600, 3600)},
+        # concurrency: 8 threads per process hash their own inputs at the same time; values vs the oracle (asan) and races (tsan)
+        {"name": "c10", "variant": "asan", "tag": "c10-mt", "shards": (_oracle.MT_SHARDS, _oracle.MT_SHARDS), "args": ["mode=mt"],
+         "args_fn": _oracle.make_cases_mt, "class_prefix": "mt:", "timeout": (600, 3600)},
+        {"name": "c10", "variant": "tsan", "tag": "c10-mt-tsan", "shards": (_oracle.MT_TSAN_SHARDS, _oracle.MT_TSAN_SHARDS),
+         "args": ["mode=mt", "tsan=1"], "args_fn": _oracle.make_cases_mt_tsan, "class_prefix": "tsan:", "timeout": (600, 3600)},
     ],
     "min_evaluations": 500000,
     "min_classes": {"quick": 150, "thorough": 250},
@@ -30,7 +40,12 @@ SPEC = {
                          "digest:mod64=55:5+-full-blocks", "digest:mod64=56:5+-full-blocks", "digest:mod64=0:5+-full-blocks",
                          "chain:every-split:inner:len<=300", "chain:every-split:empty-prefix:*", "chain:every-split:empty-suffix:*",
                          "chain:sampled-split:inner:len>=64K", "random:size:=1MiB", "random:len=64k-9", "random:len=64k+1",
-                         "input:enumerated:zero:*", "input:enumerated:ff:*", "input:enumerated:counter:*", "input:enumerated:prng:*"],
+                         "input:enumerated:zero:*", "input:enumerated:ff:*", "input:enumerated:counter:*", "input:enumerated:prng:*",
+                         "chain:empty-piece:nullptr:start:*", "chain:empty-piece:nullptr:middle:running-value",
+                         "chain:empty-piece:nullptr:end:running-value", "chain:empty-piece:valid-pointer:middle:*",
+                         "chain:empty-piece:empty-string:start:default-start", "chain:empty-piece:empty-string:end:running-value",
+                         "seeded:value:*", "mt:concurrent:8threads:*:mod64=55:*", "mt:concurrent:8threads:*:mod64=56:*",
+                         "mt:concurrent:8threads:*:mod64=0:multi", "tsan:concurrent:8threads:*:mod64=55:*"],
     "exhaustive": {"quick": False, "thorough": False},
     "exhaustive_note": "lengths 0..300 x 4 fills and all 181,804 split points of those inputs are enumerated completely in both "
                        "tiers; contents and the large inputs are sampled",
@@ -38,5 +53,9 @@ SPEC = {
         "Python hashlib (OpenSSL), zlib.crc32 and the FNV-1a recurrence in vf/oracles/c10.py are correct (self-tested against "
         "published vectors at the start of every run)",
         "hex() is compared case-insensitively (phosg prints upper case; the statement fixes the digest, not the letter case)",
+        "an empty piece of a chain may be passed as (nullptr, 0): the seeded functions must then return the running value unchanged "
+        "(HashTest itself calls crc32/fnv1a32/fnv1a64(nullptr, 0))",
+        "concurrency: the hash functions are pure functions of their arguments; the schedules seen are those the OS produced for "
+        "8 free-running threads per process (no controlled scheduler), TSan reports races on the executions it saw",
     ],
 }
